@@ -55,28 +55,7 @@ def finish (pre : String) (r : Obj × Except String String) : Obj × String :=
   | (o, .ok s) => (o, pre ++ s)
   | (o, .error e) => (o, e)
 
-/-- `DT_VERNEEDNUM` / `DT_VERDEFNUM` as the constructors of the version accessors find it: the dynamic
-    accessor (C12's model) on the first section named `.dynamic` -/
-def dynNum (o : Obj) (need : Bool) : M (Obj × BitVec 32) :=
-  let nm : Bytes := ".dynamic".toUTF8.toList
-  let none' : M (Obj × BitVec 32) := match TQ.verCount need none with
-    | .error f => .error f
-    | .ok v => pure (o, v)
-  match o.secs.findIdx? (fun s => s.name == nm) with
-  | none => none'
-  | some di =>
-    match settle o di with
-    | none => none'
-    | some (o1, d) =>
-      let (o2, str) := match settle o1 (dyn_strtab_index d.link).toNat with
-        | none => (o1, none)
-        | some (o2, s) => (o2, some s)
-      let a0 : DynAcc := { cfg := ⟨o2.cls, o2.enc⟩, sec := d, str := str }
-      -- the constructor's scan of `.dynamic` is the model `TQ.verCount` (generated loop condition, tag test,
-      -- increment, truncation)
-      match TQ.verCount need (some a0) with
-      | .error f => .error f
-      | .ok v => pure (o2, v)
+-- `dynNum` (the entry count the version accessors' constructors read from `.dynamic`) is `TQ.dynNum`
 
 def attrsStr (a : Attrs) : String :=
   s!"{a.size.toNat}/{a.bind.toNat}/{a.typ.toNat}/{a.shndx.toNat}/{a.other.toNat}"
